@@ -493,6 +493,15 @@ func c01Worlds(thorough bool) []c01World {
 				for _, lag := range []int{5, 20} {
 					ws = append(ws, c01World{N: 3, Mode: "async", Kind: k, List: full, Ahead: 2, Reps: []c01Rep{a, b}, SlowSQL: true, Prio3: 10, AsyncLagS: lag})
 				}
+				// a member that does not answer the health check of the iteration but answers again during
+				// the procedure (as in the quick tier, over more replica shapes)
+				for _, fl := range []string{"h1", "h3"} {
+					if fl == "h1" && (k == "auto-dead" || k == "forced-dead") {
+						continue
+					}
+					ws = append(ws, c01World{N: 3, Mode: "semisync1", Kind: k, List: full, Ahead: 2, Reps: []c01Rep{a, b}, Flap: fl})
+					ws = append(ws, c01World{N: 3, Mode: "semisync1", Kind: k, List: full, Ahead: 2, Reps: []c01Rep{b, a}, Flap: fl})
+				}
 			}
 		}
 	}
